@@ -16,6 +16,7 @@
 #
 # Description:
 # Groups Operators in a schedule together to form Cascades.
+from .architecture_allocator import to_upscale
 from .live_range import ofm_can_reuse_ifm
 from .numeric_util import round_up
 from .operation import NpuBlockType
@@ -65,7 +66,9 @@ class BufferMap:
                 buffer_size = max(producer.ofm_size_in_bytes(), consumer.ifm_size_in_bytes())
             else:
                 # Use a rolling buffer
-                buffer_shape = rolling_buffer_shape(cost[producer].stripe, cost[consumer].stripe_input)
+                buffer_shape = rolling_buffer_shape(
+                    cost[producer].stripe, cost[consumer].stripe_input, stripe_ifm_rows(consumer, cost[consumer])
+                )
                 buffer_size = buffer_shape.elements() * producer.ofm.dtype.size_in_bytes()
 
             self.buffer_map[key] = (buffer_shape, buffer_size)
@@ -73,9 +76,26 @@ class BufferMap:
         return self.buffer_map[key]
 
 
-def rolling_buffer_shape(producer_stripe: Shape4D, consumer_stripe_input: Shape4D) -> Shape4D:
+def stripe_ifm_rows(consumer, consumer_cost) -> int:
+    """The most IFM rows that the IFM box of one stripe of the consumer spans (Box.transform_with_strides_and_skirt):
+    the rows of the stripe times the stride plus the whole vertical skirt. When the IFM height is not a multiple of
+    the stride, or the kernel is smaller than the stride, this is more than stripe_input.height (the rows that the
+    kernel reads)"""
+    skirt = consumer.parent_op.attrs.get("skirt", None)
+    if skirt is None or to_upscale(consumer.resampling_mode) != 1:
+        return consumer_cost.stripe_input.height
+    rows = consumer_cost.stripe.height * consumer.kernel.stride.y + skirt[0] + skirt[2]
+    return max(min(rows, consumer.ifm.shape.height), consumer_cost.stripe_input.height)
+
+
+def rolling_buffer_shape(
+    producer_stripe: Shape4D, consumer_stripe_input: Shape4D, consumer_ifm_rows: int = 0
+) -> Shape4D:
     """Calculates the storage shape of the rolling buffer between two SchedulerOperations in a Cascade"""
     buffer_height = round_up(producer_stripe.height + consumer_stripe_input.height, consumer_stripe_input.height)
+    # The producer runs until the last row of the IFM box of the consumer's stripe exists, which can be up to one
+    # producer stripe less one row further. None of the rows of that box may have been overwritten by then
+    buffer_height = max(buffer_height, producer_stripe.height + consumer_ifm_rows - 1)
     # Striding on the consumer op can result in IFM widths that are narrower than the OFM width of the producer.
     # Therefore, the maximum of the two needs to be used.
     buffer_width = max(producer_stripe.width, consumer_stripe_input.width)
